@@ -28,8 +28,12 @@ var (
 	reGeneric = regexp.MustCompile(`\[\.\.\.\]`)
 )
 
+var reRecv = regexp.MustCompile(`\(\*?([A-Za-z0-9_\[\]\.,\* ]+)\)\.`)
+
 func cleanFunc(ln string) string {
-	fn := reArgs.ReplaceAllString(ln, "")
+	// "(*Actor).GetType(0xc0…)" -> "Actor.GetType": the receiver's parentheses first, then the arguments
+	fn := reRecv.ReplaceAllString(ln, "$1.")
+	fn = reArgs.ReplaceAllString(fn, "")
 	fn = strings.TrimPrefix(fn, libPrefix)
 	fn = strings.TrimPrefix(fn, "github.com/")
 	fn = reGeneric.ReplaceAllString(fn, "")
